@@ -333,6 +333,11 @@ def cases(tier, seed):
                           (isp, k, i, j),
                     "kind": "centre", "N": 80, "rnz": k, "i": i, "j": j,
                     "off": 0, "tier": tier, "spacing": list(sp)})
+    # images whose dimensions are ordered otherwise, two-colour holograms
+    for lay in ("zyx", "yxz", "xyz", "two-colour", "two-colour-last"):
+        out.append({"id": "centre:layout:%s" % lay, "kind": "centre",
+                    "N": [70, 90], "rnz": 0, "i": 1, "j": 3, "off": 0,
+                    "tier": tier, "layout": lay})
     # make_center_priors: origin x spacing x uncertainty
     for N in ([60] if tier == "quick" else [60, 100]):
         for k in ([0, 2] if tier == "quick" else range(len(RNZ))):
@@ -535,10 +540,19 @@ def _run_bgcounts(case, ck):
     nx, ny = case["nx"], case["ny"]
     i, j = np.mgrid[0:nx, 0:ny]
     acc = []
-    for dt in ("uint8", "uint16", "int16"):
-        rawv = (10 + (7 * i + 3 * j) % 23).astype(dt)      # 10..32
-        bgv = (100 + (5 * i + j) % 50).astype(dt)          # 100..149
-        dkv = (12 + (i + 2 * j) % 9).astype(dt)            # 12..20
+    for dt in ("uint8", "uint16", "int16", "int16-wide", "int8-wide"):
+        rawv = (10 + (7 * i + 3 * j) % 23).astype(dt.split("-")[0])
+        bgv = (100 + (5 * i + j) % 50).astype(dt.split("-")[0])
+        dkv = (12 + (i + 2 * j) % 9).astype(dt.split("-")[0])
+        if dt == "int16-wide":
+            # signed counts whose differences do not fit the type
+            rawv = (rawv * 600).astype("int16")            # 6000..19200
+            bgv = (bgv * 250).astype("int16")              # 25000..29750
+            dkv = (-dkv * 300).astype("int16")             # -6000..-3600
+        if dt == "int8-wide":
+            rawv = (rawv * 3).astype("int8")               # 30..96
+            bgv = (bgv - 30).astype("int8")                # 70..119
+            dkv = (-dkv * 2).astype("int8")                # -40..-24
         # one interior pixel where the background frame is darker than the
         # dark frame (read noise): a negative, not a dead, denominator
         dkv[nx // 2, ny // 2] = bgv[nx // 2, ny // 2] + 25
@@ -1152,6 +1166,24 @@ def _run_centre(case, ck):
         holo = _holo(N, rnz, (px * sx, py * sy), spacing=(sx, sy))
     else:
         holo = _holo(N, rnz, (px * SPACING, py * SPACING))
+    lay = case.get("layout")
+    if lay in ("zyx", "yxz", "xyz"):
+        holo = holo.transpose(*lay)
+        what += " dims ordered %s" % (holo.dims,)
+    elif lay:
+        from holopy.core.metadata import detector_grid
+        from holopy.scattering import calc_holo, Sphere, Mie
+        r, n, z = rnz
+        det = detector_grid(list(_nxy(N)), SPACING,
+                            extra_dims={"illumination": ["red", "green"]})
+        holo = calc_holo(det, Sphere(n=n, r=r, center=(px * SPACING,
+                                                       py * SPACING, z)),
+                         medium_index=1.33,
+                         illum_wavelen={"red": 0.66, "green": 0.52},
+                         illum_polarization=(1, 0), theory=Mie())
+        if lay == "two-colour-last":
+            holo = holo.transpose("z", "x", "y", "illumination")
+        what += " two-colour, dims %s" % (holo.dims,)
     ck.trans += 1
     snap = _Snap(holo)
     c = np.asarray(_t(what, center_find, holo), dtype=float)
